@@ -173,6 +173,10 @@ theorem su_step_state (proc : Proc α) (fftK : Fft α) (c c' : Su α) (op : SuOp
     rw [← h.1]
     simp [SuOp.advance]
   | rejected e => simp [Su.step, throw, throwThe, MonadExceptOf.throw] at h
+  | query =>
+    simp only [Su.step, pure, Except.pure, Except.ok.injEq, Prod.mk.injEq] at h
+    rw [← h.1]
+    simp [SuOp.advance]
 
 /-- a rejected call changes nothing: the state after `stepR` is the state before -/
 theorem su_stepR_rejected (proc : Proc α) (fftK : Fft α) (c : Su α) (op : SuOp α) (e : PyErr)
